@@ -397,7 +397,7 @@ func checkC13(c *Ctx) {
 		}
 		ok = false
 		for _, w := range spec.want {
-			if sum == w {
+			if sum == w || canonShape(sum) == canonShape(w) {
 				ok = true
 			}
 		}
